@@ -3156,6 +3156,20 @@ class _Simu(_IObserver, _params.Updatable, ABC):
         n0 = values.shape[0] if values.ndim >= 2 else -1
         if (n0 == Nn) != (n0 == Ne):
             onNodes, onElems = n0 == Nn, n0 == Ne
+        elif is1d and (values.size == Nn) != (values.size == Ne):
+            # a scalar field: its length identifies the storage (Nn % Ne == 0 or Ne % Nn == 0
+            # would otherwise make a nodal field pass for an element one, and conversely)
+            onNodes, onElems = values.size == Nn, values.size == Ne
+        elif (
+            is1d
+            and Nn != Ne
+            and values.size != Ne
+            and values.size
+            in [Nn * self.Get_dof_n(pt) for pt in self.Get_problemTypes()]
+        ):
+            # a flat nodal vector field (Nn * dof_n,), e.g. "displacement", whose size
+            # happens to be a multiple of Ne
+            onNodes, onElems = True, False
         else:
             onNodes = values.size % Nn == 0
             onElems = values.size % Ne == 0
